@@ -53,9 +53,9 @@ class SetPreds:
 
 
 class Ctx:
-    def __init__(self):
-        self.O = PairEnv('O')
-        self.P = self.O.dual('P')
+    def __init__(self, prefix=''):
+        self.O = PairEnv(prefix + 'O')
+        self.P = self.O.dual(prefix + 'P')
         self.n = self.O.len_other      # number of objects
         self.m = self.O.len_self       # number of properties
         self.Up, self.Cl = self.O.primeF, self.O.doubleF
